@@ -547,8 +547,8 @@ def suffixed_names(node, value, every=False):
       "plus-suffixed-defined"  a key the node defines that is NOT list-typed, plus `+`   (`yaw+` next to `yaw: int`)
 
     `key+` for a list-typed key is the library's append spelling, i.e. a defined key - never used here.
-    every=False: one defined base key per node (an int leaf if there is one, then a name of >= 3 letters, then
-    declaration order); every=True: one per KIND of non-list key the node defines (int leaf, str leaf, each group /
+    every=False: one defined base key per node (an int leaf if there is one, then a key with a default, then a name of
+    >= 3 letters, then declaration order); every=True: one per KIND of non-list key the node defines (int leaf, str leaf, each group /
     dataclass / class-typed / dict kind, subcommand selector, subcommand name; class_path and init_args) - whether
     `key+` means "append" is decided by the type of `key`."""
     defined = defined_keys(node, value)
@@ -568,7 +568,8 @@ def suffixed_names(node, value, every=False):
             return (child["k"], child.get("t") or child.get("label") or "")
 
         def rank(k):
-            return (0 if kind_of(k) == ("leaf", "int") else 1, 0 if len(k) >= 3 else 1)
+            optional = k in fields and not fields[k][1]  # absent from a required-only base, present in a full one
+            return (0 if kind_of(k) == ("leaf", "int") else 1, 0 if optional else 1, 0 if len(k) >= 3 else 1)
 
         cand.sort(key=rank)
     names, kinds = [], set()
